@@ -67,7 +67,8 @@ CHECKS["C20"] = dict(
          "threads reproduce (watchdog) is reported. Atomicity: pairs of channel requests taken from TLC-simulated "
          "behaviours of Channel.tla (plus hand-picked racing pairs) run concurrently on the real signer with one thread "
          "held before each of its lock acquisitions in turn; ConcChannel.tla (TLC) checks that replies and final state "
-         "equal a;b or b;a as executed sequentially by the implementation and as given by Channel!Step.",
+         "equal a;b or b;a as executed sequentially by the implementation and as given by Channel!Step; the same for pairs "
+         "of node-level requests (allowlist, invoices, keysends, new/setup/forget channel, heartbeat) judged by ConcNode.tla.",
     technique="lock programs recorded from the real code model-checked in TLA+ (all interleavings); model deadlocks "
               "replayed on real threads; concurrent runs under imposed schedules checked for linearizability by TLC",
     note="the recorded lock programs are schedule-independent for the recorded data situations; log level off; the traced "
